@@ -238,6 +238,8 @@ def impl_det(case):
     n, p = case["n"], case["p"]
     idx = make_index(case["index"], n)
     X = pd.DataFrame(np.array(case["X"], dtype=float), index=idx, columns=make_columns(case["columns"], p))
+    if p == 1 and not case.get("mutate") and core._bits({k: v for k, v in case.items() if k != "X"}, 0, 2):
+        X = X.iloc[:, 0]  # a Series (named after its column) carries its index just like a frame
     try:
         det = build(case).fit(X)
         if case.get("mutate"):
@@ -258,7 +260,7 @@ def impl_det(case):
             out.update(kind="sub", sparse=[((int(i.left), int(i.right)), sorted(int(c) for c in cs)) for i, cs in zip(y["ilocs"], y["icolumns"])],
                        dense=[[int(v) for v in row] for row in d.to_numpy()],
                        back=[((int(i.left), int(i.right)), sorted(int(c) for c in cs)) for i, cs in zip(back["ilocs"], back["icolumns"])],
-                       want_cols=[f"labels_{c}" for c in X.columns])
+                       want_cols=[f"labels_{c}" for c in (X.columns if hasattr(X, "columns") else [X.name])])
         else:
             out.update(kind="coll", sparse=[(int(i.left), int(i.right)) for i in y["ilocs"]], dense=[int(v) for v in d["labels"].to_numpy()],
                        back=[(int(i.left), int(i.right)) for i in back["ilocs"]])
